@@ -25,6 +25,7 @@ func init() {
 }
 
 func runC45(c *eng.Ctx) {
+	defer runC45Offset(c)
 	p := c.P
 	G := "rules:Group"
 	appender := eng.Node("g.opts.Appendable.Appender(ctx)", func(g *eng.Graph, n ast.Node) bool {
